@@ -371,9 +371,7 @@ def error_cases(tier, rng):
 
 class Lane(LaneBase):
     PROP = 'C18'
-    THEOREMS = ['CG.C18.confounders_subset', 'CG.C18.confounders_symm', 'CG.C18.confounderSet_symm',
-                'CG.C18.confounders_empty_iff', 'CG.C18.inputs_refused', 'CG.C18.inputs_accepted', 'CG.C18.witness_answer',
-                'CG.C18.sufficiency_false']
+    THEOREMS = 'auto'
     AUDIT = 'CG/Audit/C18.lean'
     RULE = ('a case is one graph with all its ordered pairs; non-trivial when some pair has a non-empty answer or an '
             'input is refused; distinct by (name pool, edge list in insertion order, argument mode)')
